@@ -15,7 +15,12 @@
 #undef _FIBER_CHANNEL_H_
 #include "fiber_multi_channel.h"
 
-const char* const H_NAME = "c01_mixed";
+/* built three times: assembly switch + malloc stacks (as every other whole-runtime harness), assembly switch +
+ * mmap stacks ("c01_mixed_mmap"), ucontext back-end + malloc stacks ("c01_mixed_uctx") */
+#ifndef H_VARIANT_NAME
+#define H_VARIANT_NAME "c01_mixed"
+#endif
+const char* const H_NAME = H_VARIANT_NAME;
 const char* const H_PROPERTY = "C01";
 
 enum { M_YIELD = 0, M_MUTEX, M_COND, M_SEM, M_RW, M_BARRIER, M_CHAN, M_MULTI, M_SLEEP, M_DETACH, M_PIPE, M_CLOSESIG, M_STORM, M_MSIG, M_TRYJOIN, M_JOINDETACH, M_NKINDS };
